@@ -391,6 +391,20 @@ func runB2(p *an.Prog, r *an.Result) {
 			if fn == nil && len(callsNamed(b.Renderer, "values.Equal")) > 0 {
 				fn = b.Renderer
 			}
+			// a test kept as a function value (a closure per when clause): the one function of the package that
+			// evaluates and judges with values.Equal
+			if fn == nil {
+				n := 0
+				for _, f := range p.Funcs {
+					if an.Outermost(f).Pkg == b.Renderer.Pkg && f.Blocks != nil && len(callsNamed(f, "(render.Context).Evaluate")) > 0 && len(callsNamed(f, "values.Equal")) > 0 {
+						fn = f
+						n++
+					}
+				}
+				if n != 1 {
+					fn = nil
+				}
+			}
 		}
 	}
 	if fn == nil {
@@ -425,8 +439,11 @@ func runB2(p *an.Prog, r *an.Result) {
 				if ifi, ok := u.(*ssa.If); ok {
 					for _, in := range ifi.Block().Succs[0].Instrs {
 						if ret, ok := in.(*ssa.Return); ok {
-							if b, ok := an.ConstBool(resultsOf(ret)[0]); ok && b {
-								decides = true
+							// `return true`, or `return body, true, nil`: a constant true among the results
+							for _, rv := range resultsOf(ret) {
+								if b, ok := an.ConstBool(rv); ok && b {
+									decides = true
+								}
 							}
 						}
 					}
@@ -455,7 +472,13 @@ func runB2(p *an.Prog, r *an.Result) {
 			return
 		}
 		res := resultsOf(ret)
-		if b, isC := an.ConstBool(res[0]); isC && b {
+		anyTrue := false
+		for _, rv := range res {
+			if b, isC := an.ConstBool(rv); isC && b {
+				anyTrue = true
+			}
+		}
+		if anyTrue {
 			if an.AllPathsGuarded(ret.Block(), equalTrue) {
 				r.OK(name, "a match is reported only on a true values.Equal", ret.Pos(), "every path to `return true` takes the true edge of an Equal call")
 			} else {
@@ -470,6 +493,22 @@ func runB2(p *an.Prog, r *an.Result) {
 	an.EachInstr(fn, func(in ssa.Instruction) {
 		ia, ok := in.(*ssa.IndexAddr)
 		if !ok || !isForwardRangeIndex(ia.Index) || len(marks) == 0 {
+			return
+		}
+		// the walk over the when values: its element is what gets evaluated (a walk over clauses is B1's)
+		evaluated := false
+		if ia.Referrers() != nil {
+			for _, u := range *ia.Referrers() {
+				if ld, ok := u.(*ssa.UnOp); ok && ld.Referrers() != nil {
+					for _, uu := range *ld.Referrers() {
+						if c, ok := uu.(*ssa.Call); ok && an.CallName(&c.Call) == "(render.Context).Evaluate" {
+							evaluated = true
+						}
+					}
+				}
+			}
+		}
+		if !evaluated {
 			return
 		}
 		if iterationCanSkip(ia.Block(), marks) {
@@ -896,13 +935,23 @@ func sentinelOf(t *Tag) *ssa.Global {
 		return nil
 	}
 	var g *ssa.Global
-	an.EachInstr(t.Renderer, func(in ssa.Instruction) {
-		if u, ok := in.(*ssa.UnOp); ok && u.Op == token.MUL {
-			if gg, ok := u.X.(*ssa.Global); ok && an.IsErrorType(u.Type()) {
-				g = gg
-			}
+	find := func(fn *ssa.Function) {
+		if fn == nil || fn.Blocks == nil {
+			return
 		}
-	})
+		an.EachInstr(fn, func(in ssa.Instruction) {
+			if u, ok := in.(*ssa.UnOp); ok && u.Op == token.MUL {
+				if gg, ok := u.X.(*ssa.Global); ok && an.IsErrorType(u.Type()) {
+					g = gg
+				}
+			}
+		})
+	}
+	find(t.Renderer)
+	if g == nil {
+		// the renderer is a method value of a small type that was given the sentinel by the tag's compiler
+		find(t.Compiler)
+	}
 	return g
 }
 
@@ -926,6 +975,28 @@ func runB6(p *an.Prog, r *an.Result) {
 					if c, isC := o.(*ssa.Call); isC && an.CallName(&c.Call) == "(render.Context).WrapError" {
 						if u, isU := an.Strip(c.Call.Args[0]).(*ssa.UnOp); isU && u.X == ssa.Value(t.g) {
 							ok = true
+						}
+						// or a field of the receiver, where the renderer is a method value of a small type that the
+						// tag's compiler filled with the sentinel
+						fld := -1
+						switch x := an.Strip(c.Call.Args[0]).(type) {
+						case *ssa.Field:
+							fld = x.Field
+						case *ssa.UnOp:
+							if fa, isFA := x.X.(*ssa.FieldAddr); isFA {
+								fld = fa.Field
+							}
+						}
+						if fld >= 0 && tg.Compiler != nil && tg.Compiler.Blocks != nil {
+							an.EachInstr(tg.Compiler, func(in2 ssa.Instruction) {
+								if st, isSt := in2.(*ssa.Store); isSt {
+									if fa, isFA := st.Addr.(*ssa.FieldAddr); isFA && fa.Field == fld {
+										if u, isU := an.Strip(st.Val).(*ssa.UnOp); isU && u.X == ssa.Value(t.g) {
+											ok = true
+										}
+									}
+								}
+							})
 						}
 					}
 				}
@@ -952,7 +1023,8 @@ func runB6(p *an.Prog, r *an.Result) {
 			if !ok || (g != gb && g != gc) {
 				return
 			}
-			isTag := fn == tagByName(roles, "break").Renderer || fn == tagByName(roles, "continue").Renderer
+			isTag := fn == tagByName(roles, "break").Renderer || fn == tagByName(roles, "continue").Renderer ||
+				fn == tagByName(roles, "break").Compiler || fn == tagByName(roles, "continue").Compiler
 			cmp := false
 			if u.Referrers() != nil {
 				for _, uu := range *u.Referrers() {
@@ -2489,6 +2561,12 @@ func truthinessOnly(p *an.Prog, v ssa.Value, depth int, seen map[ssa.Value]bool)
 			if cn == "values.Equal" {
 				continue
 			}
+			if !x.Call.IsInvoke() && x.Call.StaticCallee() == nil && x.Call.Value != v {
+				// an argument of a function value of the package (the clause's test kept as a closure)
+				if n := an.NamedOf(x.Call.Value.Type()); n != nil && an.IsModulePkg(n.Obj().Pkg()) && an.RelPkg(n.Obj().Pkg().Path()) == "tags" {
+					continue
+				}
+			}
 			if x.Call.IsInvoke() && x.Call.Value != v {
 				// an argument of an interface method of the module (the clause's test)
 				if n := an.NamedOf(x.Call.Value.Type()); n != nil && an.IsModulePkg(n.Obj().Pkg()) && an.RelPkg(n.Obj().Pkg().Path()) == "tags" {
@@ -2724,7 +2802,17 @@ func isFieldOf(v ssa.Value, pkg, typ, field string) bool {
 // variables, and walks an iterator (invokes Len and Index on a value of one interface type) - the last
 // tells it from a capture that renders its children into a buffer and binds the result.
 func isLoopFunction(f *ssa.Function) bool {
-	if f.Pkg == nil || an.RelPkg(f.Pkg.Pkg.Path()) != "tags" || len(callsNamed(f, "(render.Context).RenderChildren")) == 0 || len(callsNamed(f, "(render.Context).Set")) == 0 {
+	if f.Pkg == nil || an.RelPkg(f.Pkg.Pkg.Path()) != "tags" || len(callsNamed(f, "(render.Context).Set")) == 0 {
+		return false
+	}
+	// the body is rendered here, or by a function of the package this one calls (one iteration split off)
+	body := len(callsNamed(f, "(render.Context).RenderChildren")) > 0
+	an.EachCall(f, func(ci ssa.CallInstruction) {
+		if c := ci.Common().StaticCallee(); c != nil && c.Pkg == f.Pkg && c.Blocks != nil && len(callsNamed(c, "(render.Context).RenderChildren")) > 0 {
+			body = true
+		}
+	})
+	if !body {
 		return false
 	}
 	lens, idxs := map[types.Type]bool{}, map[types.Type]bool{}
